@@ -3,8 +3,9 @@ package c11h
 // Wire-level generator for hostile DNS messages (used by the dns and responder sub-checks): a
 // message is assembled from drawn parts — header with true or lying counts, names made of labels,
 // reserved label types and compression pointers (backwards, forwards, to themselves, in cycles, in
-// long chains, out of range), questions, resource records with true or lying RDLENGTH, OPT records —
-// and then possibly truncated or extended.
+// long chains, out of range), questions, resource records with true or lying RDLENGTH, OPT records, record data that is drawn
+// bytes or a sequence of EDNS options / TXT character-strings whose last element fits, overruns the
+// data or is cut — and then possibly truncated or extended.
 
 import (
 	"encoding/binary"
@@ -95,6 +96,85 @@ func (d *dnsBuilder) name(label string, base [][]byte) {
 	}
 }
 
+// EDNSOptionCodes are option codes resolvers really attach (NSID, client subnet, cookie, keepalive,
+// padding, extended error) and codes nobody assigned.
+var EDNSOptionCodes = []uint16{10, 10, 12, 8, 3, 11, 15, 0, 1, 0xfde9, 0xffff}
+
+// EDNSOption is the wire form of one {OPTION-CODE, OPTION-LENGTH, OPTION-DATA} triple whose length
+// field says `declared`, whatever len(data) is.
+func EDNSOption(code uint16, declared int, data []byte) []byte {
+	b := binary.BigEndian.AppendUint16(nil, code)
+	b = binary.BigEndian.AppendUint16(b, uint16(declared))
+	return append(b, data...)
+}
+
+// EDNSOptions draws the RDATA of an OPT record the way RFC 6891 section 6.1.2 lays it out: 0-3
+// well-formed options (known and unknown codes, data lengths around what the known options expect)
+// and then, in two thirds of the draws, a malformed end: a last option whose OPTION-LENGTH is larger
+// than the data that follows (by 1..6 bytes — i.e. by less than, exactly and more than the size of
+// an option header — or by a lot), smaller than it (the rest looks like a cut-off header), or 1-3
+// bytes of an option header.
+func EDNSOptions(rt *rapid.T, label string) []byte {
+	var out []byte
+	dataLens := []int{0, 0, 1, 2, 3, 4, 7, 8, 9, 16, 24, 32, 40, 300}
+	n := rapid.IntRange(0, 3).Draw(rt, label+"_nopts")
+	for i := 0; i < n; i++ {
+		data := Bytes(rt, label+"_optdata", dataLens)
+		out = append(out, EDNSOption(rapid.SampledFrom(EDNSOptionCodes).Draw(rt, label+"_optcode"), len(data), data)...)
+	}
+	switch rapid.SampledFrom([]string{"none", "none", "none", "overrun", "overrun", "overrun", "overrun-far", "short", "header-cut"}).Draw(rt, label+"_optend") {
+	case "overrun":
+		data := Bytes(rt, label+"_lastdata", dataLens)
+		out = append(out, EDNSOption(rapid.SampledFrom(EDNSOptionCodes).Draw(rt, label+"_lastcode"), len(data)+rapid.IntRange(1, 6).Draw(rt, label+"_over"), data)...)
+	case "overrun-far":
+		data := Bytes(rt, label+"_lastdata", dataLens)
+		decl := rapid.SampledFrom([]int{len(data) + 7, len(data) + 100, 0x7fff, 0x8000, 0xffff}).Draw(rt, label+"_far")
+		out = append(out, EDNSOption(rapid.SampledFrom(EDNSOptionCodes).Draw(rt, label+"_lastcode"), decl, data)...)
+	case "short":
+		data := Bytes(rt, label+"_lastdata", []int{1, 2, 3, 4, 8, 9})
+		out = append(out, EDNSOption(rapid.SampledFrom(EDNSOptionCodes).Draw(rt, label+"_lastcode"), rapid.IntRange(0, len(data)-1).Draw(rt, label+"_declared"), data)...)
+	case "header-cut":
+		out = append(out, Bytes(rt, label+"_cut", []int{1, 2, 3})...)
+	}
+	return out
+}
+
+// TXTStrings draws RDATA made of <character-string>s (one length octet + that many octets); the
+// last length octet may promise more or fewer octets than follow.
+func TXTStrings(rt *rapid.T, label string) []byte {
+	var out []byte
+	n := rapid.IntRange(0, 3).Draw(rt, label+"_nstr")
+	for i := 0; i < n; i++ {
+		s := Bytes(rt, label+"_str", []int{0, 1, 16, 254, 255})
+		out = append(append(out, byte(len(s))), s...)
+	}
+	switch rapid.IntRange(0, 3).Draw(rt, label+"_strend") {
+	case 1:
+		s := Bytes(rt, label+"_laststr", []int{0, 1, 16, 200})
+		out = append(append(out, byte(len(s)+rapid.SampledFrom([]int{1, 2, 55}).Draw(rt, label+"_strover"))), s...)
+	case 2:
+		s := Bytes(rt, label+"_laststr", []int{1, 2, 16})
+		out = append(append(out, byte(len(s)-1)), s...)
+	}
+	return out
+}
+
+// rdata draws record data: drawn bytes, or bytes structured as EDNS options / TXT strings (the OPT
+// record mostly carries options, other records mostly bytes or strings).
+func rdata(rt *rapid.T, label string, opt bool) []byte {
+	kinds := []string{"bytes", "bytes", "txt", "options"}
+	if opt {
+		kinds = []string{"bytes", "options", "options", "options", "txt"}
+	}
+	switch rapid.SampledFrom(kinds).Draw(rt, label+"_rdatakind") {
+	case "options":
+		return EDNSOptions(rt, label)
+	case "txt":
+		return TXTStrings(rt, label)
+	}
+	return Bytes(rt, label+"_rdata", []int{0, 0, 1, 4, 16, 255, 256, 300})
+}
+
 // GenDNSWire draws one datagram. domain is the responder's base domain (labels); payload is the
 // label sequence a genuine client would put in front of it (may be nil).
 func GenDNSWire(rt *rapid.T, domain, payload [][]byte) []byte {
@@ -145,7 +225,7 @@ func GenDNSWire(rt *rapid.T, domain, payload [][]byte) []byte {
 			d.u16(rapid.SampledFrom([]uint16{1, 0, 4096}).Draw(rt, label+"_class"))
 			d.u32(rapid.Uint32().Draw(rt, label+"_ttl"))
 		}
-		data := Bytes(rt, label+"_rdata", []int{0, 0, 1, 4, 16, 255, 256, 300})
+		data := rdata(rt, label, opt)
 		switch rapid.IntRange(0, 9).Draw(rt, label+"_rdlen") {
 		case 8:
 			d.u16(uint16(len(data) + 1))
